@@ -29,6 +29,7 @@ RULES_DOC = {
     "R13": "closure with a tuple-pattern parameter `|(a, b)| e` -> `|v: T| { let (a, b) = v; e }`",
     "R14": "`let X = loop { .. break E .. };` (break with value) -> `let X; loop { .. { X = E; break; } .. }`",
     "R16": "impl header replaced by the one given in the contract store (adds the bound `P: Prefix` where the source impl is unbounded; the contract is meaningless for other P)",
+    "R17": "crate-internal module path prefixes dropped (the unit is a single flat module)",
     "R11": "`vec![a, b]` -> `vec2(a, b)`-style helper calls with vstd-verified bodies (speclib/std_specs.rs)",
 }
 
@@ -207,60 +208,102 @@ def rewrite_R10(text):
     return pat.sub(repl, text)
 
 def rewrite_R14(text):
-    """`let X = loop { .. break E, .. };`  ->  `let X; loop { .. { X = E; break; } .. }`  (break-with-value)"""
-    m = re.search(r"\blet\s+([A-Za-z_][A-Za-z0-9_]*)\s*=\s*loop\s*\{", text)
-    if not m:
-        return text
-    name = m.group(1)
+    """break-with-value:  `let X = loop { .. break E .. };` -> `let X; loop { .. { X = E; break; } .. }`
+    and a `loop { .. break E .. }` in tail position -> `let __brk; loop { .. { __brk = E; break; } .. } __brk`"""
     toks = retok(text)
-    # locate the '{' token of the loop
-    k0 = next(k for k, t in enumerate(toks) if t.start == m.end() - 1)
-    k1 = match_close(toks, k0)
-    out = []
-    k = 0
-    n = len(toks)
-    # header
-    hdr_start = next(k for k, t in enumerate(toks) if t.start == m.start())
-    while k < hdr_start:
-        out.append(toks[k].text); k += 1
-    out.append("let %s; loop {" % name)
-    k = k0 + 1
-    depth_loop = 0
-    while k < k1:
-        t = toks[k]
-        if t.kind == "ident" and t.text == "break":
-            # expression until ',' ';' or closing brace at depth 0
-            j = k + 1
-            depth = 0
-            while j < k1:
-                tt = toks[j]
-                if tt.kind == "punct":
-                    if tt.text in ("(", "[", "{"): depth += 1
-                    elif tt.text in (")", "]", "}"):
-                        if depth == 0: break
-                        depth -= 1
-                    elif tt.text in (",", ";") and depth == 0:
-                        break
+    # find a `loop` whose body contains `break <expr>` at its own nesting level (not inside an inner loop)
+    for k, t in enumerate(toks):
+        if not (t.kind == "ident" and t.text == "loop"): continue
+        k0 = _next_sig_tok(toks, k)
+        if not (toks[k0].kind == "punct" and toks[k0].text == "{"): continue
+        k1 = match_close(toks, k0)
+        has_val = False
+        j = k0 + 1
+        while j < k1:
+            tj = toks[j]
+            if tj.kind == "ident" and tj.text in ("loop", "while", "for"):
+                # skip inner loop bodies
+                jj = j + 1
+                depth = 0
+                while jj < k1 and not (toks[jj].kind == "punct" and toks[jj].text == "{" and depth == 0):
+                    if toks[jj].kind == "punct" and toks[jj].text in ("(", "["): depth += 1
+                    if toks[jj].kind == "punct" and toks[jj].text in (")", "]"): depth -= 1
+                    jj += 1
+                j = match_close(toks, jj) + 1 if jj < k1 else k1
+                continue
+            if tj.kind == "ident" and tj.text == "break":
+                n1 = _next_sig_tok(toks, j)
+                if not (toks[n1].kind == "punct" and toks[n1].text in (";", ",", "}")) and toks[n1].kind != "lifetime":
+                    has_val = True
+            j += 1
+        if not has_val: continue
+        # is it `let NAME = loop`?
+        name = None
+        pj = k - 1
+        while pj >= 0 and toks[pj].kind in ("ws", "comment"): pj -= 1
+        let_start = None
+        if pj >= 0 and toks[pj].kind == "punct" and toks[pj].text == "=":
+            pn = pj - 1
+            while pn >= 0 and toks[pn].kind in ("ws", "comment"): pn -= 1
+            pl = pn - 1
+            while pl >= 0 and toks[pl].kind in ("ws", "comment"): pl -= 1
+            if toks[pn].kind == "ident" and pl >= 0 and toks[pl].kind == "ident" and toks[pl].text == "let":
+                name = toks[pn].text
+                let_start = pl
+        tail = name is None
+        if tail: name = "__brk"
+        out = []
+        start = let_start if let_start is not None else k
+        for x in toks[:start]: out.append(x.text)
+        ty = ""
+        if tail:
+            mm = re.search(r"\)\s*->\s*([^{]+?)\s*(?:where[^{]*)?\{", text)
+            if mm: ty = ": " + mm.group(1).strip()
+        out.append("let %s%s; loop {" % (name, ty))
+        j = k0 + 1
+        while j < k1:
+            tj = toks[j]
+            if tj.kind == "ident" and tj.text == "break":
+                e = j + 1
+                depth = 0
+                while e < k1:
+                    tt = toks[e]
+                    if tt.kind == "punct":
+                        if tt.text in ("(", "[", "{"): depth += 1
+                        elif tt.text in (")", "]", "}"):
+                            if depth == 0: break
+                            depth -= 1
+                        elif tt.text in (",", ";") and depth == 0:
+                            break
+                    e += 1
+                expr = toks_text(toks[j + 1:e]).strip()
+                if expr == "":
+                    out.append("break")
+                else:
+                    out.append("{ %s = %s; break; }" % (name, expr))
+                j = e
+                continue
+            out.append(tj.text)
+            j += 1
+        out.append("}")
+        j = k1 + 1
+        if not tail:
+            # drop the `;` that closed the let statement
+            while j < len(toks) and toks[j].kind == "ws":
+                out.append(toks[j].text); j += 1
+            if j < len(toks) and toks[j].kind == "punct" and toks[j].text == ";":
                 j += 1
-            expr = toks_text(toks[k + 1:j]).strip()
-            if expr == "":
-                out.append("break")
-            else:
-                out.append("{ %s = %s; break; }" % (name, expr))
-            k = j
-            continue
-        out.append(t.text)
+        else:
+            out.append(" " + name)
+        for x in toks[j:]: out.append(x.text)
+        return rewrite_R14("".join(out)) if False else "".join(out)
+    return text
+
+def _next_sig_tok(toks, k):
+    k += 1
+    while k < len(toks) and toks[k].kind in ("ws", "comment", "doc"):
         k += 1
-    out.append("}")
-    k = k1 + 1
-    # drop the `;` that closed the let statement
-    while k < n and toks[k].kind == "ws":
-        out.append(toks[k].text); k += 1
-    if k < n and toks[k].kind == "punct" and toks[k].text == ";":
-        k += 1
-    while k < n:
-        out.append(toks[k].text); k += 1
-    return "".join(out)
+    return k
 
 def rewrite_R11(text):
     """vec![] -> Vec::new(); vec![a] -> vec1(a); vec![a, b] -> vec2(a, b)  (helpers with verified bodies in speclib/std_specs.rs)"""
@@ -295,9 +338,13 @@ def rewrite_R11(text):
         k += 1
     return "".join(out)
 
+def rewrite_R17(text):
+    """the unit is one flat module: crate-internal path prefixes are dropped (`map::Direction` -> `Direction`)"""
+    return re.sub(r"\b(?:crate::)?(?:map|inner|trieview|set|prefix)::(?=[A-Z])", "", re.sub(r"\bcrate::(?=[A-Za-z_])", "", text))
+
 def rewrite_R2(text):
     text = re.sub(r"unsafe\s*\{\s*([A-Za-z_\.]+(?:\.as_ref\(\)\?)?)\s*\.get_mut\(\s*([^)]*?)\s*\)\s*\}", r"&\1.0[\2]", text)
-    text = re.sub(r"&\s*('[a-z_]+\s+)?mut\s+", lambda m: "&" + (m.group(1) or ""), text)
+    text = re.sub(r"&\s*('[a-z_]+\s+)?mut\s+(?!self\b)", lambda m: "&" + (m.group(1) or ""), text)
     text = text.replace(".as_mut()", ".as_ref()")
     text = text.replace("prefix_value_mut", "prefix_value")
     return text
@@ -430,6 +477,8 @@ def parse_unit(path):
             # rewrite /regex/ => replacement   # why
             m2 = re.match(r"/(.*?)/\s*=>\s*(.*?)\s*(?:##\s*(.*))?$", full, re.S)
             cur.rewrites.append((m2.group(1), m2.group(2), m2.group(3) or ""))
+        elif d == "item":
+            cur.opts["item"] = rest.strip()
         elif d == "attr":
             cur.opts.setdefault("attrs", []).append(rest.strip())
         elif d == "name":
@@ -627,7 +676,7 @@ def emit_fn(out, u, fs, rules_used):
     t2 = pub_vis(text1)
     if t2 != text1: rules_used.add("R7")
     text1 = t2
-    for rule, fnr in (("R1", lambda t: rewrite_R1(t, in_table_impl)), ("R3", rewrite_R3), ("R8", rewrite_R8), ("R10", rewrite_R10), ("R14", rewrite_R14), ("R11", rewrite_R11)):
+    for rule, fnr in (("R1", lambda t: rewrite_R1(t, in_table_impl)), ("R3", rewrite_R3), ("R8", rewrite_R8), ("R10", rewrite_R10), ("R14", rewrite_R14), ("R11", rewrite_R11), ("R17", rewrite_R17)):
         t2 = fnr(text1)
         if t2 != text1: rules_used.add(rule)
         text1 = t2
